@@ -90,6 +90,7 @@ fn parent_doc(dm: &str, bid: u32) -> String {
   <transition event="cmd.20"><send event="md.a20" targetexpr="'#_scxml_' + B" delay="20ms"><param name="p" expr="v"/></send></transition>
   <transition event="cmd.21"><send event="md.a21" targetexpr="'#_' + 'kid'" delayexpr="'15ms'"><param name="p" expr="v + 1"/></send></transition>
   <transition event="cmd.22"><send event="md.a22" target="#_scxml_{bid}" delay="10ms"/><send event="bar.a" delay="150ms"/></transition>
+  <transition event="cmd.23"><send event="m.a23" targetexpr="'#_scxml_' + _sessionid"><param name="p" expr="v"/></send></transition>
   <transition event="cmd.11"><send event="m.fenceA"/></transition>
   <transition event="cmd.12"><send event="m.fenceB" target="#_scxml_{bid}"/></transition>
   <transition event="cmd.13"><send event="m.fenceC" target="#_kid"/></transition>
@@ -190,7 +191,7 @@ fn routing(dm: &str, rep: &mut Report) {
             std::thread::sleep(Duration::from_millis(5));
         }
     }
-    for k in [1, 2, 3, 4, 5, 6, 7, 8, 9, 10, 14, 15, 16, 17, 18, 11, 12, 13, 19] {
+    for k in [1, 2, 3, 4, 5, 6, 7, 8, 9, 10, 14, 15, 16, 17, 18, 23, 11, 12, 13, 19] {
         a.send(&format!("cmd.{}", k));
         sent += 1;
         wait_stable(&mut a, sent);
@@ -205,7 +206,8 @@ fn routing(dm: &str, rep: &mut Report) {
     let mut chain_back = false;
     loop {
         let l = rec::snapshot_log();
-        let got = |n: &str| l.iter().any(|e| matches!(&e.ev, Ev::XRecv(ev) if ev.name == n));
+        // (received in whichever queue: a reply that lands in the wrong queue is judged below, it must not stall the fence)
+        let got = |n: &str| l.iter().any(|e| matches!(&e.ev, Ev::XRecv(ev) | Ev::IRecv(ev) if ev.name == n));
         let basic = got("reply.m.fenceA") && got("reply.m.fenceB") && got("reply.m.fenceC");
         if basic && got("chain.done") {
             chain_back = true;
@@ -311,6 +313,9 @@ fn routing(dm: &str, rep: &mut Report) {
         Want { skip_invokeid: false, name: "reply.m.a4", session: 'A', internal: false, origin_of: Some('B'), sendid: None, data: None, invokeid: false },
         Want { skip_invokeid: false, name: "reply.m.a5", session: 'A', internal: false, origin_of: Some('C'), sendid: None, data: None, invokeid: true },
         Want { skip_invokeid: false, name: "reply.m.a1", session: 'A', internal: false, origin_of: Some('A'), sendid: None, data: None, invokeid: false },
+        // a session addressing itself by its session id: its own *external* queue
+        Want { skip_invokeid: false, name: "m.a23", session: 'A', internal: false, origin_of: Some('A'), sendid: None, data: Some(map(&[("p", V::Int(5))])), invokeid: false },
+        Want { skip_invokeid: false, name: "reply.m.a23", session: 'A', internal: false, origin_of: Some('A'), sendid: None, data: None, invokeid: false },
         // delayed sends go to the same place as immediate ones (target by expression or literal)
         Want { skip_invokeid: false, name: "md.a20", session: 'B', internal: false, origin_of: Some('A'), sendid: None, data: Some(map(&[("p", V::Int(5))])), invokeid: false },
         Want { skip_invokeid: false, name: "md.a21", session: 'C', internal: false, origin_of: Some('A'), sendid: None, data: Some(map(&[("p", V::Int(6))])), invokeid: false },
